@@ -89,7 +89,7 @@ class Model:
         self.procs = ts['procs']
         for p in self.procs:
             p['trans'] = p['trans'] or []
-        self.chans = {c['id']: c for c in ts['chans']}
+        self.chans = {c['id']: c for c in (ts['chans'] or [])}
         self.cells = {c['name']: c for c in (ts['cells'] or [])}
         self.pcw = [max(1, math.ceil(math.log2(max(2, p['nlocs'])))) for p in self.procs]
         self.pinned = [Bool('pinned_%d' % k) for k in range(self.N)]
